@@ -183,7 +183,7 @@ def plan(tier):
                     tasks.append(('A', dict(storage=skind, rows=r, strategy=strategy, n=n)))
     # (sparse collections.defaultdict rows - rowtype='defaultdict' - are NOT part of the plan: whether a Mapping whose reads
     # can insert keys keeps its semantics inside the library is outside the properties; two behaviour-preserving
-    # refactorings, R3 and R12, treat such rows differently from the unchanged tree. See DESIGN 9.4.)
+    # refactorings, R3, R8 and R12, treat such rows differently from the unchanged tree. See DESIGN 9.4.)
     for n in ns:
         tasks.append(('A', dict(storage=None, rows=0, strategy='default', n=n)))
     deep = tier == 'thorough'
